@@ -993,39 +993,7 @@ fn clean_stale_dirs() {
 
 static CLEAN: Once = Once::new();
 
-/// Redirects file descriptor 1 to /dev/null for its lifetime.
-struct StdoutSilencer {
-    saved: i32,
-}
-impl StdoutSilencer {
-    fn new() -> Self {
-        use std::io::Write;
-        let _ = std::io::stdout().flush();
-        unsafe {
-            let saved = libc::dup(1);
-            let null = libc::open(c"/dev/null".as_ptr(), libc::O_WRONLY);
-            if saved >= 0 && null >= 0 {
-                libc::dup2(null, 1);
-            }
-            if null >= 0 {
-                libc::close(null);
-            }
-            StdoutSilencer { saved }
-        }
-    }
-}
-impl Drop for StdoutSilencer {
-    fn drop(&mut self) {
-        use std::io::Write;
-        let _ = std::io::stdout().flush();
-        unsafe {
-            if self.saved >= 0 {
-                libc::dup2(self.saved, 1);
-                libc::close(self.saved);
-            }
-        }
-    }
-}
+use crate::util::StdoutSilencer;
 
 impl Engine for FuzzEngine {
     fn exec(&mut self, line: &str) -> String {
